@@ -68,6 +68,9 @@ def main():
             finally:
                 subprocess.run(["git", "-C", REPO, "checkout", "--", "."])
                 subprocess.run(["git", "-C", REPO, "clean", "-fdq", "--", "src", "tests", "q1tsim-derive", "examples"])
+                # the Gen tables were regenerated from the mutated tree: bring ALL of them back to the clean tree now (the next
+                # check only regenerates the tables it owns)
+                subprocess.run([sys.executable, os.path.join(ROOT, "tools", "translate.py"), REPO], capture_output=True)
         json.dump(results, open(resf, "w"), indent=1, sort_keys=True)
     return 0
 
